@@ -102,6 +102,7 @@ class Interp:
         self.total_requests = 0
         self.pre_request = None
         self.terminal = False
+        self.co_depth = 0
 
         # ---- handles
         class SimHandle(d.WorldHandle):
@@ -135,6 +136,13 @@ class Interp:
 
     # ---- clock seam
     def read_clock(self):
+        if self.ended_by is not None:
+            # an exception that ends the run was raised in the previous
+            # frame, and the loop is starting another iteration
+            self.fail('C14', 'boom_swallowed' if self.ended_by != 'quit'
+                      else 'quit_propagated', f'the loop went on to another '
+                      f'iteration after {self.ended_by!r} was raised in '
+                      f'frame {self.frame}')
         if self.run_reads >= self.run_cap:
             self.faults['clock_' + self.end_kind] += 1
             self.ended_by = 'clock'
@@ -224,6 +232,8 @@ class Interp:
 
     # ---- recording hooks
     def check_running(self, inst, what):
+        if self.terminal:
+            return                  # (the model no longer follows the loop)
         if inst in self.muted:
             self.fail('C13', 'not_muted', f'{what} ran in {inst}, a world '
                       f'that was left through switch() and not re-entered')
@@ -237,6 +247,13 @@ class Interp:
 
     def on_proc(self, inst, actor, dt):
         self.trace.add('proc', inst, actor, repr(dt))
+        if actor == 'tick' and self.in_run and \
+                self.loop.current_world is not self.world_of.get(inst):
+            # (tick is the first processor of a frame: nothing of this frame
+            # can have switched yet) - holds whatever the model knows
+            self.fail(('C14', 'C13'), 'wrong_world_runs', f'frame '
+                      f'{self.frame} processes {inst}, which is not '
+                      f'loop.current_world')
         self.check_running(inst, f'processor {actor}')
         self.ev.append(('proc', inst, actor, dt, self.frame))
         self.run_script(f'{self.frame}:H{inst[0]}.{actor}', inst)
@@ -245,7 +262,11 @@ class Interp:
         self.trace.add('co', inst, actor, step)
         self.check_running(inst, f'coroutine {actor}')
         self.ev.append(('co', inst, actor, step, self.frame))
-        self.run_script(f'{self.frame}:H{inst[0]}.{actor}', inst)
+        self.co_depth += 1
+        try:
+            self.run_script(f'{self.frame}:H{inst[0]}.{actor}', inst)
+        finally:
+            self.co_depth -= 1
 
     def inst_label(self, w):
         return self.inst_of.get(id(w), 'foreign' if w is not None else None)
@@ -260,7 +281,7 @@ class Interp:
         else:
             info = tuple(args)
         self.trace.add('cb', inst, actor, ev, repr(info))
-        if inst in self.muted:
+        if inst in self.muted and not self.terminal:
             self.fail('C13', 'not_muted', f'{actor}.{ev}{info} delivered in '
                       f'{inst}, a world left through switch() and not '
                       f're-entered')
@@ -437,6 +458,19 @@ class Interp:
         self.after_request(rec, frm, y, cc, direct=True)
         raise d.SwitchWorld(self.handles[T], cc, cn)
 
+    def sop_loop_switch(self, op, inst):
+        """A plain call of loop.switch(handle) from running code (no
+        exception, no in/out events). The prediction model stops here
+        (terminal); what remains checked is that every later frame processes
+        loop.current_world, time deltas and the way the run ends."""
+        T = op[1]
+        self.terminal = True
+        self.pre_request = (self.loop.current_world,
+                            self.loop.current_world_handle)
+        self.faults['plain_loop_switch'] += 1
+        self.probes['plain_loop_switch_call'] += 1
+        self.loop.switch(self.handles[T])
+
     def sop_quit(self, op, inst):
         self.faults['quit'] += 1
         self.ended_by = 'quit'
@@ -447,6 +481,12 @@ class Interp:
     def sop_quit_loop(self, op, inst):
         target = op[1]
         d = self.desper
+        if self.terminal:           # follow the loop, not the model
+            self.cur = self.inst_of.get(id(self.loop.current_world),
+                                        self.cur)
+            if self.cur in self.muted or self.cur in self.fresh:
+                target = 'none' if not self.own_loop else target
+                self.muted.discard(self.cur)
         if self.own_loop and target == 'none':
             target = 'cur'
         if target == 'none':
@@ -489,6 +529,11 @@ class Interp:
         self.faults['boom'] += 1
         self.ended_by = 'boom'
         e = Boom('injected')
+        if len(op) > 1 and op[1] == 'stop' and not self.co_depth:
+            # an exception type that iteration protocols swallow (inside a
+            # generator body PEP 479 would turn it into a RuntimeError)
+            e = StopIteration('injected')
+            self.probes['stop_iteration_escapes_a_frame'] += 1
         self.crash_obj = e
         self.probes['boom_from.' + self.requester_kind()] += 1
         raise e
@@ -502,9 +547,21 @@ class Interp:
 
     def sop_probe(self, op, inst):
         _, h, token = op
+        if self.terminal:
+            return
         g = self.cached[h]
         z = (h, g)
-        if g is None or z not in self.world_of or z in self.fresh:
+        if g is None:
+            # the handle was cleared: the instance that was left through
+            # switch(clear_current=True) is still around (somebody kept a
+            # reference) and it was left - it holds its events for good
+            old = sorted(x for x in self.muted
+                         if x[0] == h and x in self.world_of)
+            if not old:
+                return
+            z = old[-1]
+            self.probes['probe_on_discarded_world'] += 1
+        if z not in self.world_of or z in self.fresh:
             return
         w = self.world_of[z]
         want = sorted(self.listeners(z, 'probe'))
@@ -529,6 +586,8 @@ class Interp:
         self.ev = []
         self.loop.switch(self.handles[h])
         self.cur = (h, self.gen[h])
+        if self.terminal:
+            return      # a load-time callback already switched somewhere else
         self.check_entry(self.ev, self.cur, [], None, False)
         if self.loop.current_world is not self.world_of[self.cur]:
             self.fail('C13', 'wrong_world_runs', 'after Loop.switch the '
@@ -929,6 +988,9 @@ def gen_script(prop, rng, cfg, key, state):
         return [rng.choice([['quit'], ['boom']])]
     r = rng.random()
     ops = []
+    if prop == 'C14' and rng.random() < (
+            .15 if actor.endswith('on_switch_in') else .02):
+        return [['loop_switch', rng.randrange(nw)]]
     if rng.random() < .35:
         state['token'] += 1
         ops.append(['probe', rng.randrange(nw), state['token']])
@@ -954,7 +1016,7 @@ def gen_script(prop, rng, cfg, key, state):
 
 
 TERMINATORS = [['quit'], ['quit_loop', 'none'], ['quit_loop', 'cur'],
-               ['boom'], ['crash']]
+               ['boom'], ['crash'], ['boom', 'stop']]
 
 
 def generate(prop, run_seed, tier='quick', tolerate=frozenset()):
@@ -1098,8 +1160,11 @@ PROBES = {
             'reenter_muted_world_with_pending', 'direct_raise',
             'probe_on_muted_world', 'held_events_released',
             'entry_cut_by_held_event_callback', 'carried_events_released',
-            'entry_cut_by_chained_switch', 'non_default_loop'],
-    'C14': ['quit_while_next_world_loads', 'quit_from.proc_first', 'quit_from.proc', 'quit_from.on_update',
+            'entry_cut_by_chained_switch', 'non_default_loop',
+            'probe_on_discarded_world'],
+    'C14': ['quit_while_next_world_loads', 'stop_iteration_escapes_a_frame',
+            'plain_loop_switch_call',
+            'quit_from.proc_first', 'quit_from.proc', 'quit_from.on_update',
             'quit_from.coroutine', 'quit_from.clock', 'boom_from.proc',
             'restart_count>=2', 'zero_delta_reading', 'jump_reading',
             'fraction_clock', 'dt_across_switch_checked', 'on_quit_checked',
